@@ -11,7 +11,7 @@ use plonky2::field::types::{Field, Field64, PrimeField64};
 use rand::Rng;
 use serde_json::{json, Value};
 
-use crate::util::*;
+use vh::util::*;
 
 
 // ---- independent reference (plain u128 arithmetic and %) ----------------------------------
@@ -493,4 +493,12 @@ pub fn bulk(args: &[String]) -> anyhow::Result<()> {
     emit(&json!({"kind": "c14-bulk", "cases": cases, "nontrivial": nontrivial, "packed_width": width,
                  "packed_cases": packed_cases, "mismatches": mism, "reflog_events": reflog_events}));
     Ok(())
+}
+
+fn main() -> std::process::ExitCode {
+    vh::util::run_main(|cmd, rest| match cmd {
+        "c14-record" => record(rest),
+        "c14-bulk" => bulk(rest),
+        other => Err(anyhow::anyhow!("unknown command {other}")),
+    })
 }
